@@ -104,15 +104,16 @@ func subset(r *rand.Rand, xs []string, min, max int) []string {
 }
 
 type genOpts struct {
-	maxTxns     int
-	pessRate    float64
-	faults      bool
-	topo        bool
-	backend     string
-	asyncRate   float64
-	onePCRate   float64
-	lockRate    float64
-	readOnlyPct float64
+	maxTxns      int
+	pessRate     float64
+	faults       bool
+	topo         bool
+	backend      string
+	asyncRate    float64
+	onePCRate    float64
+	lockRate     float64
+	readOnlyPct  float64
+	boundedRiter bool // never generate a reverse scan without upper bound (known finding F1)
 }
 
 // genTxn generates one transaction program over the key pool.
@@ -146,7 +147,7 @@ func genTxn(r *rand.Rand, id int, clients int, o genOpts, keys []string) TxnProg
 			}
 		case x < 0.42:
 			op = Op{Kind: "riter"}
-			if r.Intn(2) == 0 {
+			if r.Intn(2) == 0 || o.boundedRiter {
 				op.Hi = pick(r, keys)
 			}
 			if r.Intn(2) == 0 {
